@@ -108,6 +108,37 @@ pub fn solve(root: usize, giv: &[Option<usize>], limit: usize) -> Vec<Vec<usize>
     out
 }
 
+/// the classical pattern grid g[r][c] = (root*(r % root) + r/root + c) % sq with its digits
+/// relabelled so that it keeps the givens, if such a relabelling exists
+pub fn pattern_solution(root: usize, giv: &[Option<usize>]) -> Option<Vec<usize>> {
+    let sq = root * root;
+    let pat = |cell: usize| -> usize { (root * ((cell / sq) % root) + (cell / sq) / root + cell % sq) % sq };
+    let mut map: Vec<Option<usize>> = vec![None; sq];
+    let mut used = vec![false; sq + 1];
+    for (cell, g) in giv.iter().enumerate() {
+        if let Some(d) = g {
+            match map[pat(cell)] {
+                Some(m) if m != *d => return None,
+                Some(_) => {}
+                None => {
+                    if used[*d] {
+                        return None;
+                    }
+                    used[*d] = true;
+                    map[pat(cell)] = Some(*d);
+                }
+            }
+        }
+    }
+    let mut free: Vec<usize> = (1..=sq).filter(|d| !used[*d]).collect();
+    for m in map.iter_mut() {
+        if m.is_none() {
+            *m = free.pop();
+        }
+    }
+    Some((0..sq * sq).map(|cell| map[pat(cell)].unwrap_or(1)).collect())
+}
+
 /// reference classifier on an assignment of the _c_is_d variables
 pub fn is_completed_grid(root: usize, giv: &[Option<usize>], truth: &dyn Fn(usize, usize) -> bool) -> bool {
     let sq = root * root;
@@ -473,7 +504,12 @@ pub fn check_case(c: &Case) -> Result<Report, Violation> {
             None => false,
         })
     };
-    let sols = solve(c.root, &giv, if c.root <= 2 { 100_000 } else { 40 });
+    let sols = if c.root <= 3 {
+        solve(c.root, &giv, if c.root <= 2 { 100_000 } else { 40 })
+    } else {
+        // large grids: no search; a solution is constructed when the givens fit a relabelled pattern grid
+        pattern_solution(c.root, &giv).into_iter().collect()
+    };
     // soundness: every reference solution satisfies the formula
     for g in &sols {
         compared += 1;
@@ -487,7 +523,11 @@ pub fn check_case(c: &Case) -> Result<Report, Violation> {
     let mut bases: Vec<Vec<usize>> = sols.iter().take(20).cloned().collect();
     if bases.is_empty() {
         // contradictory puzzle: use solutions of the empty puzzle as bases
-        bases = solve(c.root, &vec![None; sq * sq], 5);
+        bases = if c.root <= 3 {
+            solve(c.root, &vec![None; sq * sq], 5)
+        } else {
+            pattern_solution(c.root, &vec![None; sq * sq]).into_iter().collect()
+        };
     }
     for g in &bases {
         for _ in 0..tier_count(c.root) {
@@ -733,7 +773,9 @@ fn render_puzzle(t: &mut Tape, root: usize, giv: &[Option<usize>]) -> String {
 }
 
 fn gen_case(t: &mut Tape, allow3: bool) -> Case {
-    let root = if allow3 && t.chance(25) {
+    let root = if allow3 && t.chance(6) {
+        4
+    } else if allow3 && t.chance(25) {
         3
     } else if t.chance(30) {
         1
@@ -792,6 +834,14 @@ fn gen_case(t: &mut Tape, allow3: bool) -> Case {
             }
         }
     }
+    if sq > 9 {
+        // a given is a single character: only 1..9 can be written
+        for g in giv.iter_mut() {
+            if g.map(|d| d > 9).unwrap_or(false) {
+                *g = None;
+            }
+        }
+    }
     let puzzle = render_puzzle(t, root, &giv);
     Case { root, puzzle }
 }
@@ -843,6 +893,8 @@ pub fn run(ctx: &mut Ctx) -> Result<(), Violation> {
         Case { root: 2, puzzle: "\"2\"\"\n3\"\"\"".into() },
         Case { root: 2, puzzle: "1\" 2\" .. ..".into() },
         Case { root: 3, puzzle: "53..7....6..195....98....6.8...6...34..8.3..17...2...6.6....28....419..5....8..79".into() },
+        Case { root: 4, puzzle: "".into() },
+        Case { root: 4, puzzle: "1.2.3.4.5.6.7.8.\n9...............".into() },
     ];
     if let Ok(s) = std::fs::read_to_string("/repo/examples/in_progress/sudoku_puzzle.txt") {
         fixed.push(Case { root: 3, puzzle: s });
@@ -900,7 +952,7 @@ pub fn run(ctx: &mut Ctx) -> Result<(), Violation> {
 
 pub fn replay(case: &Value) -> Check {
     match (case["root"].as_u64(), case["puzzle"].as_str()) {
-        (Some(r), Some(p)) if (1..=3).contains(&r) => check_case(&Case {
+        (Some(r), Some(p)) if (1..=5).contains(&r) => check_case(&Case {
             root: r as usize,
             puzzle: p.to_string(),
         })
